@@ -30,7 +30,8 @@ type ClusterStub struct {
 	Tokens map[string]Ident
 	// SAR answers a SubjectAccessReview: "allow", "deny", "noopinion", "error".
 	SAR func(spec authorizationv1.SubjectAccessReviewSpec) string
-	// ReviewMode: "" answer at once, "hold" park every review at a sim point, "500" fail.
+	// ReviewMode: "" answer at once, "hold" park every review at a sim point,
+	// "hold-sar" park SubjectAccessReviews only, "500" fail.
 	ReviewMode string
 }
 
@@ -288,7 +289,10 @@ func (s *Stub) review(rw http.ResponseWriter, r *http.Request, o *UpObs, key str
 	case "500":
 		writeJSON(rw, 500, statusObj(500, metav1.StatusReasonInternalError, "review backend failure"))
 		return false
-	case "hold":
+	case "hold", "hold-sar":
+		if s.Cluster.ReviewMode == "hold-sar" && !strings.HasPrefix(key, "sar:") {
+			return true
+		}
 		out := s.W.Sc.ParkPoint("review", "", "review:"+key+"@"+s.Addr, o)
 		select {
 		case <-r.Context().Done():
